@@ -285,7 +285,9 @@ def cases(tier, seed):
     BADLATE = rs("a/t", [["string", "s"], ["varint", "n"]], ["'late'", "-2**63-1"])
     OTHER = rs("a/other", [["string", "s"], ["varint", "n"]], ["'o'", "7"])
     OTHERF = rs("a/t", [["varint", "n"], ["string", "s"]], ["8", "'swapped'"])
-    kinds = {"V1": V1, "V2": V2, "BADINT": BADINT, "BADSTR": BADSTR, "BADLATE": BADLATE, "OTHER": OTHER, "OTHERF": OTHERF}
+    # same type name and the same 32-bit identifier as a/t [string s, varint n] ("s"+"string"+"n"+"varint" == "sstringn"+"varint"), other fields
+    OTHERC = rs("a/t", [["varint", "sstringn"]], ["9"])
+    kinds = {"V1": V1, "V2": V2, "BADINT": BADINT, "BADSTR": BADSTR, "BADLATE": BADLATE, "OTHER": OTHER, "OTHERF": OTHERF, "OTHERC": OTHERC}
     bad = {"BADINT", "BADSTR", "BADLATE"}
     for k in range(1, 5 if tier == "thorough" else 4):
         for seq in itertools.product(kinds, repeat=k):
@@ -303,7 +305,7 @@ def cases(tier, seed):
 
 
 def _type_of(s):
-    return {"V1": "t", "V2": "t", "OTHER": "other", "OTHERF": "tf"}.get(s, "t")
+    return {"V1": "t", "V2": "t", "OTHER": "other", "OTHERF": "tf", "OTHERC": "tc"}.get(s, "t")
 
 
 def main(tier, seed, workers=None):
